@@ -41,7 +41,8 @@ func simQuiet() {
 }
 
 // simServer is one server instance built by the real pipeline:
-// parseSource -> setupRoutes -> createHandler.
+// parseSource -> setupRoutes -> createHandler, mounted the way startServer mounts it (a ServeMux
+// behind loggingMiddleware).
 type simServer struct {
 	handler  http.HandlerFunc
 	compiled bool
@@ -56,7 +57,9 @@ func simBuildServer(src string, forceInterp bool) (*simServer, error) {
 	if err != nil {
 		return nil, err
 	}
-	return &simServer{handler: createHandler(router), compiled: useCompiler}, nil
+	mux := http.NewServeMux()
+	mux.HandleFunc("/", createHandler(router))
+	return &simServer{handler: loggingMiddleware(mux).ServeHTTP, compiled: useCompiler}, nil
 }
 
 type simReq struct {
